@@ -82,4 +82,30 @@ def canjoin (args : List String) : String :=
         (srcOf (j.getObjValD "l")) (srcOf (j.getObjValD "r")))
   | _ => "bad-op"
 
+
+/-- op: lffull <U csv> <expr json> <ls;ls;...> → ok | outside | missing [..]: on the C12 fragment, what the engine
+returns on a database where every series carries every label of U must be among `full U e` -/
+def lffull (args : List String) : String :=
+  match args with
+  | [u, js, sets] => match Json.parse js with
+    | .error _ => "bad-op"
+    | .ok j =>
+      let e := exprOf j
+      if !frag12 e then "outside" else
+      let U := (u.splitOn ",").filter (· != "")
+      let poss := (full U e).map norm
+      let asked := (sets.splitOn ";").map fun s => norm ((s.splitOn ",").filter (· != ""))
+      match asked.find? (fun ls => !poss.contains ls) with
+      | none => "ok"
+      | some ls => s!"missing {showL ls}"
+  | _ => "bad-op"
+
+/-- op: lffrag <expr json> → true|false -/
+def lffrag (args : List String) : String :=
+  match args with
+  | [js] => match Json.parse js with
+    | .error _ => "bad-op"
+    | .ok j => toString (frag12 (exprOf j))
+  | _ => "bad-op"
+
 end Driver.C04
